@@ -73,66 +73,81 @@ def run(args):
             if not all((fT, fC, fI, fA, fId)):
                 rep.broke("anchor vanished: transform/compose/inverse/act/setIdentity instantiation of %s" % own)
                 continue
-            sym = P.PolySym(F)
-
-            def ev(f, this, argv, what):
+            worlds = [{}]
+            done = 0
+            group_ok = True
+            while worlds and done < 8:
+                world = worlds.pop(0)
+                wtag = "" if not world else " [world: %s]" % ", ".join("switch at line %s on its %s arm" % (k, "then" if v else "else") for k, v in sorted(world.items()))
                 try:
-                    return sym.call_function(f, this, argv)
-                except (S.Unsupported, S.Raised) as e:
-                    raise C.AnalysisBroken("R-POLY cannot interpret %s of %s: %s" % (what, own, e))
+                    sym = P.PolySym(F)
+                    sym.switch_world = world
 
-            try:
-                X, Y = sym_obj("a", rep_n), sym_obj("b", rep_n)
-                TX = P.mat_sym(S.as_mat(ev(fT, X, [], "transform")))
-                TY = P.mat_sym(S.as_mat(ev(fT, Y, [], "transform")))
-                XY = ev(fC, X, [Y, None, None], "compose")
-                TXY = P.mat_sym(S.as_mat(ev(fT, XY, [], "transform(compose)")))
-                Xi = ev(fI, X, [None], "inverse")
-                TXi = P.mat_sym(S.as_mat(ev(fT, Xi, [], "transform(inverse)")))
-                dim = TX.shape[0] - len(pad)
-                pv = S.Mat(dim, 1)
-                pv.cells = [S.Aff.sym("p%d" % i) for i in range(dim)]
-                act = S.as_mat(ev(fA, X, [pv, None, None], "act"))
-                actm = P.mat_sym(act)
-                Idobj = sym_obj("z", rep_n)
-                ev(fId, Idobj, [], "setIdentity")
-                TId = P.mat_sym(S.as_mat(ev(fT, Idobj, [], "transform(Identity)")))
-            except C.AnalysisBroken as e:
-                rep.broke(str(e))
-                continue
-            if any(m is None for m in (TX, TY, TXY, TXi, actm, TId)):
-                rep.broke("R-POLY: a matrix of %s is not polynomial in the coefficients (TOP cell): TX=%s TXY=%s TXi=%s act=%s TId=%s" % (
-                    own, TX is not None, TXY is not None, TXi is not None, actm is not None, TId is not None))
-                continue
-            n_groups += 1
-            rel = relations("a", rot) + relations("b", rot)
+                    def ev(f, this, argv, what):
+                        try:
+                            return sym.call_function(f, this, argv)
+                        except (S.Unsupported, S.Raised) as e:
+                            raise C.AnalysisBroken("R-POLY cannot interpret %s of %s: %s" % (what, own, e))
 
-            def F_(rule, site, msg, f):
-                return C.Finding("C01", rule, "%s:%s" % (own, site), msg, f["file"], f["line"])
+                    try:
+                        X, Y = sym_obj("a", rep_n), sym_obj("b", rep_n)
+                        TX = P.mat_sym(S.as_mat(ev(fT, X, [], "transform")))
+                        TY = P.mat_sym(S.as_mat(ev(fT, Y, [], "transform")))
+                        XY = ev(fC, X, [Y, None, None], "compose")
+                        TXY = P.mat_sym(S.as_mat(ev(fT, XY, [], "transform(compose)")))
+                        Xi = ev(fI, X, [None], "inverse")
+                        TXi = P.mat_sym(S.as_mat(ev(fT, Xi, [], "transform(inverse)")))
+                        dim = TX.shape[0] - len(pad)
+                        pv = S.Mat(dim, 1)
+                        pv.cells = [S.Aff.sym("p%d" % i) for i in range(dim)]
+                        act = S.as_mat(ev(fA, X, [pv, None, None], "act"))
+                        actm = P.mat_sym(act)
+                        Idobj = sym_obj("z", rep_n)
+                        ev(fId, Idobj, [], "setIdentity")
+                        TId = P.mat_sym(S.as_mat(ev(fT, Idobj, [], "transform(Identity)")))
+                    except C.AnalysisBroken as e:
+                        rep.broke(str(e))
+                        continue
+                    if any(m is None for m in (TX, TY, TXY, TXi, actm, TId)):
+                        rep.broke("R-POLY: a matrix of %s is not polynomial in the coefficients (TOP cell): TX=%s TXY=%s TXi=%s act=%s TId=%s" % (
+                            own, TX is not None, TXY is not None, TXi is not None, actm is not None, TId is not None))
+                        continue
+                    n_groups += 1 if done == 0 else 0
+                    rel = relations("a", rot) + relations("b", rot)
 
-            n = TX.shape[0]
-            D = (TXY - TX * TY)
-            for r in range(n):
-                for c in range(n):
-                    d = P.reduce_mod(D[r, c], rel)
-                    rep.obligation(d == 0, lambda r=r, c=c, d=d: F_(
-                        "R-POLY.compose", "compose(%d,%d)" % (r, c),
-                        "matrix of X.compose(Y) differs from T(X)*T(Y) at (%d,%d) by %s (polynomial in the coefficients a*, b*; non-zero modulo |rotation| = 1)" % (r, c, str(d)[:160]), fC))
-            D = TXi * TX - sp.eye(n)
-            for r in range(n):
-                for c in range(n):
-                    d = P.reduce_mod(D[r, c], rel)
-                    rep.obligation(d == 0, lambda r=r, c=c, d=d: F_(
-                        "R-POLY.inverse", "inverse(%d,%d)" % (r, c), "T(X.inverse())*T(X) - I is %s at (%d,%d)" % (str(d)[:160], r, c), fI))
-            hp = sp.Matrix([sp.Symbol("p%d" % i) for i in range(dim)] + pad)
-            want = (TX * hp)[:dim, 0]
-            for r in range(dim):
-                d = P.reduce_mod(actm[r, 0] - want[r], rel)
-                rep.obligation(d == 0, lambda r=r, d=d: F_("R-POLY.act", "act[%d]" % r, "X.act(p)[%d] - (T(X)[p;%s])[%d] = %s" % (r, pad, r, str(d)[:160]), fA))
-            for r in range(n):
-                for c in range(n):
-                    rep.obligation(TId[r, c] == (1 if r == c else 0), lambda r=r, c=c: F_(
-                        "R-POLY.identity", "Identity(%d,%d)" % (r, c), "Identity().transform()(%d,%d) = %s" % (r, c, TId[r, c]), fId))
+                    def F_(rule, site, msg, f):
+                        return C.Finding("C01", rule, "%s:%s%s" % (own, site, wtag), msg + wtag, f["file"], f["line"])
+
+                    n = TX.shape[0]
+                    D = (TXY - TX * TY)
+                    for r in range(n):
+                        for c in range(n):
+                            d = P.reduce_mod(D[r, c], rel)
+                            rep.obligation(d == 0, lambda r=r, c=c, d=d: F_(
+                                "R-POLY.compose", "compose(%d,%d)" % (r, c),
+                                "matrix of X.compose(Y) differs from T(X)*T(Y) at (%d,%d) by %s (polynomial in the coefficients a*, b*; non-zero modulo |rotation| = 1)" % (r, c, str(d)[:160]), fC))
+                    D = TXi * TX - sp.eye(n)
+                    for r in range(n):
+                        for c in range(n):
+                            d = P.reduce_mod(D[r, c], rel)
+                            rep.obligation(d == 0, lambda r=r, c=c, d=d: F_(
+                                "R-POLY.inverse", "inverse(%d,%d)" % (r, c), "T(X.inverse())*T(X) - I is %s at (%d,%d)" % (str(d)[:160], r, c), fI))
+                    hp = sp.Matrix([sp.Symbol("p%d" % i) for i in range(dim)] + pad)
+                    want = (TX * hp)[:dim, 0]
+                    for r in range(dim):
+                        d = P.reduce_mod(actm[r, 0] - want[r], rel)
+                        rep.obligation(d == 0, lambda r=r, d=d: F_("R-POLY.act", "act[%d]" % r, "X.act(p)[%d] - (T(X)[p;%s])[%d] = %s" % (r, pad, r, str(d)[:160]), fA))
+                    for r in range(n):
+                        for c in range(n):
+                            rep.obligation(TId[r, c] == (1 if r == c else 0), lambda r=r, c=c: F_(
+                                "R-POLY.identity", "Identity(%d,%d)" % (r, c), "Identity().transform()(%d,%d) = %s" % (r, c, TId[r, c]), fId))
+                except P.NeedWorld as nw:
+                    w1 = dict(world); w1[nw.key] = True; worlds.append(w1)
+                    w0 = dict(world); w0[nw.key] = False; worlds.append(w0)
+                    continue
+                done += 1
+            if worlds:
+                rep.broke("R-POLY: too many data-dependent switches in the group operations of %s" % own)
             rep.sample({"group": own, "T(X)": str(TX.tolist())[:400], "compose_coeffs": [str(P.cell_sym(x))[:80] for x in XY.coeffs.mat().cells][:6]}, limit=8)
     finally:
         S.POLY = False
